@@ -12,7 +12,7 @@ use super::c23::{gen_base_ign, gen_sparse, gen_tree, oracle_snapshot, random_edi
 
 pub fn run(cfg: &Cfg, out: &mut Out) {
     let mut r = cfg.rng(27);
-    let workspaces = cfg.n(70, 800);
+    let workspaces = cfg.n(200, 1500);
     for _ in 0..workspaces {
         let mut env = Env::new();
         let cf = r.chance(1, 3);
